@@ -312,6 +312,17 @@ func CmdCheck(args []string) int {
 			}
 		} else if strings.HasPrefix(f.name, "standin:") {
 			suffix = ""
+		} else if f.obl == nil {
+			// the contract no longer fits the function (its structure changed): no obligations, but a replay
+			// harness of the function can still run its fixed scenarios on the real code
+			fn := strings.SplitN(f.name, "#", 2)[0]
+			if rs := loadReplaySpec(*verif, fn); rs != nil {
+				ok, out := runReplay(*verif, *repo, rs, map[string]string{}, f.name)
+				rp["replay"] = map[string]any{"note": "contract error: only the fixed scenarios of the harness were run", "test": rs.Test, "confirmed": ok, "output": out}
+				if ok {
+					suffix = ""
+				}
+			}
 		}
 		if f.query != "" && !*noEvidence {
 			qp := strings.TrimSuffix(path, ".json") + ".smt2"
